@@ -338,8 +338,9 @@ def ix1(prog, rr):
                     continue
                 t = st.targets[0]
                 lens = [x for x in ast.walk(st.value) if isinstance(x, ast.Call) and call_name(x) == "len" and x.args]
-                if len(lens) != 1 or norm(st.value) != norm(lens[0]):
+                if len(lens) != 1:
                     continue
+                exact = norm(st.value) == norm(lens[0])
                 lst = norm(lens[0].args[0])
                 if not lst.startswith("self."):
                     continue
@@ -357,7 +358,10 @@ def ix1(prog, rr):
                 n += 1
                 first = app[0].value
                 rr.inst("%s.%s: %s = len(%s) then %s.append" % (cn, m.name, norm(t), lst, recv_text(first)))
-                if recv_text(first) != lst:
+                if not exact and recv_text(first) == lst:
+                    rr.finding(m, st, "%s.%s" % (cn, m.name), "IX1: %s = %s is not the position the item gets in %s (its length before the append)"
+                               % (norm(t), norm(st.value), lst), text="index not the length")
+                elif recv_text(first) != lst:
                     rr.finding(m, st, "%s.%s" % (cn, m.name), "IX1: the index recorded in %s is the length of %s but the item is appended to %s: "
                                "look-ups through the table then address a different element (or run past the end)"
                                % (norm(t), lst, recv_text(first)), text="index of other list")
@@ -421,7 +425,11 @@ def cv18(prog, rr):
 
 # --------------------------------------------------------------------------------------- LOOP1
 def _direct_breaks(loop):
-    return [st for st in loop.body if isinstance(st, ast.Break)]
+    """the break statements that end the first iteration on EVERY path through the body (if any path continues, none)"""
+    ps = _paths(loop.body)
+    if ps and all(p and isinstance(p[-1], ast.Break) for p, _ in ps):
+        return [ps[0][0][-1]]
+    return []
 
 
 def _loop1(prog, rr, funcs, what):
